@@ -448,7 +448,7 @@ pub enum WildCell {
     NotANumber,
 }
 
-pub const HAND_CONFIGS: [(&str, [usize; 5], WildCell); 13] = [
+pub const HAND_CONFIGS: [(&str, [usize; 5], WildCell); 15] = [
     ("uniform, N=-inf", [1, 1, 1, 1, 0], WildCell::NegInf),
     ("nonuniform(.1,.2,.3,.4,0), N=-inf", [1, 2, 3, 4, 0], WildCell::NegInf),
     ("wildcard(.2,.3,.1,.3,.1), N=row minimum", [2, 3, 1, 3, 1], WildCell::RowMin),
@@ -471,6 +471,9 @@ pub const HAND_CONFIGS: [(&str, [usize; 5], WildCell); 13] = [
     ("extreme skew(2^-44 x3, rest), N=-inf", [1, 1, 17592186044413, 1, 0], WildCell::NegInf),
     // a NaN wildcard column under a background that never draws the wildcard
     ("uniform, N=NaN (never drawn)", [1, 1, 1, 1, 0], WildCell::NotANumber),
+    // equal frequencies on the four symbols AND a wildcard frequency: "uniform" on the K-1 symbols but not 1/(K-1)
+    ("equal symbols with wildcard mass(.2 x5), N=-inf", [1, 1, 1, 1, 1], WildCell::NegInf),
+    ("equal symbols with wildcard mass(.125 x4, .5), N=-inf", [1, 1, 1, 1, 4], WildCell::NegInf),
 ];
 
 pub fn hand(hi: usize, ci: usize) -> Mat {
